@@ -1,5 +1,5 @@
 import Zc.GenFacts.ReplyNet
-import Zc.Proofs.Host
+import Zc.Proofs.HostInv
 /-! Helper lemmas for the socket-level model `Model/ReplyNet.lean` (C11): closed forms of `sendWith`, `asyncSend`,
 `multicast`, `unicast`, and the refinement "the physical datagrams of a block project onto the logical `Out`s of `Host.step`". -/
 namespace Zc.Reply.Net
@@ -183,5 +183,126 @@ theorem logical_ucast (addr port : Nat) (qs : List Wire.Encode.EQuestion) (us : 
   have h1 : ucastReplyMulticast id us = false := Zc.Reply.GenFacts.ans_unicast_multicast_arg _ _
   simp only [logical, ucastContent, h1, Bool.false_eq_true, if_false, GenFacts.ans_unicast_id, Zc.Reply.GenFacts.ans_echo_questions]
   cases us <;> simp
+
+/-! ### one block of the host: physical datagrams = the logical ones, realised on the sockets -/
+
+theorem mcastContent_eq (a b : List RecId) :
+    mcastContent a b = { flags := 0x8400, multicast := true, id := 0, questions := [], answers := a, adds := b } := by
+  simp only [mcastContent, GenFacts.ans_multicast_flags, GenFacts.ans_no_add_question, Bool.false_eq_true, if_false,
+    mcastReplyMulticast, Zc.Reply.GenFacts.ans_multicast_multicast_arg]
+
+theorem ucastContent_eq (qs : List Wire.Encode.EQuestion) (us : Bool) (id : Nat) (a b : List RecId) :
+    ucastContent qs us id a b =
+      { flags := 0x8400, multicast := false, id := id, questions := if us then qs else [], answers := a, adds := b } := by
+  simp only [ucastContent, GenFacts.ans_unicast_flags, GenFacts.ans_unicast_id, ucastReplyMulticast,
+    Zc.Reply.GenFacts.ans_unicast_multicast_arg, Zc.Reply.GenFacts.ans_echo_questions]
+  rfl
+
+/-- the first packet of the query the block answers, if it answers one -/
+def blockFirst (h : Host) (e : Ev) : Option Pkt :=
+  match h.decide e with
+  | .ok (.answer _ pkts _ _) => pkts.head?
+  | _ => none
+
+/-- `len(msg._questions)` of a packet is the length of the question section the world holds for its datagram -/
+def World.QsOK (w : World) (p : Pkt) : Prop := p.nq = (w.questions p.dataId).length
+
+instance (w : World) (p : Pkt) : Decidable (w.QsOK p) := by unfold World.QsOK; infer_instance
+
+/-- one logical datagram on the sockets -/
+def realize (w : World) (first : Option Pkt) : Out → List (Sent Content)
+  | .mcast a b =>
+    w.senders.map (fun s => { sock := s.id, dest := groupDest s,
+                              packet := { flags := 0x8400, multicast := true, id := 0, questions := [], answers := a, adds := b } })
+  | .ucast addr port id nq a b =>
+    if w.rx.v6 = (w.peer addr).1.hasColon then
+      [{ sock := w.rx.id, dest := replyDest w addr port,
+         packet := { flags := 0x8400, multicast := false, id := id,
+                     questions := if nq = 0 then [] else (first.map (fun p => w.questions p.dataId)).getD [],
+                     answers := a, adds := b } }]
+    else []
+
+theorem realize_mcast (w : World) (first : Option Pkt) (d : Dict) : realize w first (Out.ofMcast d) = multicast w d := by
+  rw [multicast_eq, mcastContent_eq]; rfl
+
+theorem realize_ucast (w : World) (first : Pkt) (addr port : Nat) (us : Bool) (d : Dict) (hq : w.QsOK first) :
+    realize w (some first) (Out.ucast addr port first.id (if Gen.Reply.ans_echo_questions us then first.nq else 0) d.keys (additionalsOf d)) =
+      unicast w first addr port us d := by
+  rw [unicast_eq, ucastContent_eq, Zc.Reply.GenFacts.ans_echo_questions]
+  simp only [realize, Option.map_some, Option.getD_some]
+  unfold World.QsOK at hq
+  cases us
+  · simp
+  · simp only [if_true]
+    by_cases h0 : first.nq = 0
+    · have : w.questions first.dataId = [] := by
+        rw [h0] at hq; exact List.eq_nil_of_length_eq_zero hq.symm
+      simp [h0, this]
+    · simp [h0]
+
+theorem step_physical (w : World) {h : Host} {e : Ev} {r : StepOut} {ds : List (Sent Content)}
+    (hs : step w h e = .ok (r, ds)) (hq : ∀ p, blockFirst h e = some p → w.QsOK p) :
+    h.step e = .ok r ∧ ds = r.outs.flatMap (realize w (blockFirst h e)) := by
+  unfold step at hs
+  cases hstep : h.step e with
+  | error m => rw [hstep] at hs; cases hs
+  | ok r' =>
+    rw [hstep] at hs
+    obtain ⟨a, hd, hp⟩ := step_decide hstep
+    simp only [hd] at hs
+    cases a with
+    | idle lis =>
+      simp only [Except.ok.injEq, Prod.mk.injEq] at hs
+      obtain ⟨rfl, rfl⟩ := hs
+      exact ⟨rfl, by rw [(perform_idle hp).2]; rfl⟩
+    | defer lis d =>
+      simp only [Except.ok.injEq, Prod.mk.injEq] at hs
+      obtain ⟨rfl, rfl⟩ := hs
+      exact ⟨rfl, by rw [(perform_defer hp).2]; rfl⟩
+    | ready d =>
+      simp only [Except.ok.injEq, Prod.mk.injEq] at hs
+      obtain ⟨rfl, rfl⟩ := hs
+      refine ⟨rfl, ?_⟩
+      obtain ⟨_, h0, h1⟩ := perform_ready hp
+      cases d
+      · rw [(h0 rfl).2.2]
+        simp only [Bool.false_eq_true, if_false]
+        cases (h.outQ.ready e.time).2 with
+        | none => rfl
+        | some b => simp [realize_mcast]
+      · rw [(h1 rfl).2.2]
+        simp only [if_true]
+        cases (h.delayQ.ready e.time).2 with
+        | none => rfl
+        | some b => simp [realize_mcast]
+    | answer lis pkts addr port =>
+      simp only [Except.ok.injEq, Prod.mk.injEq] at hs
+      obtain ⟨rfl, rfl⟩ := hs
+      refine ⟨rfl, ?_⟩
+      have hbf : blockFirst h e = pkts.head? := by simp only [blockFirst, hd]
+      obtain ⟨rest, ha⟩ := perform_answer hp
+      cases hf : pkts.head? with
+      | none => simp [Host.assemble, hf] at ha
+      | some first =>
+        cases hqa : asyncResponse pkts (Gen.Reply.ucast_source port) e.seen with
+        | none =>
+          simp only [Host.assemble, hf, hqa, Except.ok.injEq, Prod.mk.injEq] at ha
+          rw [← ha.1]
+          simp only [assemble, hf, hqa, List.flatMap_nil]
+        | some qa =>
+          obtain ⟨first', hf', ho, _⟩ := assemble_spec ha hqa
+          rw [hf] at hf'; cases hf'
+          rw [ho, assemble_eq w hf hqa, hbf, hf]
+          have hqf : w.QsOK first := hq first (by rw [hbf, hf])
+          simp only [immediateOuts, List.flatMap_append]
+          congr 1
+          · cases qa.ucast.isEmpty
+            · simp only [Bool.false_eq_true, if_false, List.flatMap_cons, List.flatMap_nil, List.append_nil]
+              exact (realize_ucast w first addr port _ qa.ucast hqf).symm
+            · rfl
+          · cases qa.mcastNow.isEmpty
+            · simp only [Bool.false_eq_true, if_false, List.flatMap_cons, List.flatMap_nil, List.append_nil]
+              exact (realize_mcast w _ qa.mcastNow).symm
+            · rfl
 
 end Zc.Reply.Net
